@@ -78,7 +78,7 @@ func condName(v ssa.Value) (name string, flipped bool) {
 				return callName(c) + "()"
 			}
 			if p, ok := v.(*ssa.Parameter); ok {
-				return p.Name()
+				return paramCanon(p)
 			}
 			if cv, ok := v.(*ssa.Convert); ok {
 				return side(cv.X)
